@@ -595,11 +595,14 @@ def run_C06(r, spec, tier):
     agg = r.campaign(spec['harness'], 'main', tier['shards'], tier['n'], tier['size'], extra_env=spec.get('env'))
     # a real kill plugin suspended on its prekill hook (the C17 harness in its C06 mode)
     agg2 = r.campaign('c17', 'kill', tier['shards'], max(100, tier['n'] // 8), tier['size'], extra_env=spec.get('env'))
+    # per-cgroup ruleset instances pausing independently (the C11 harness): the context of every resumed run,
+    # target cgroup included, is the one the chain was fired with
+    agg3 = r.campaign('c11', 'percg', tier['shards'], max(100, tier['n'] // 8), tier['size'], extra_env=spec.get('env'))
     cov = cov_from(agg)
-    cov['evaluations'] += agg2['evaluations']
-    cov['distinct_nontrivial'] = len(agg['hashes'] | agg2['hashes'])
+    cov['evaluations'] += agg2['evaluations'] + agg3['evaluations']
+    cov['distinct_nontrivial'] = len(agg['hashes'] | agg2['hashes'] | agg3['hashes'])
     cov['sub_campaigns'] = dict(scripted_plugins=agg['evaluations'], real_kill_plugins=agg2['evaluations'],
-                                real_kill_labels=agg2['labels'])
+                                real_kill_labels=agg2['labels'], per_cgroup_instances=agg3['evaluations'])
     cov['replayed'] = nrep
     return cov
 
